@@ -81,6 +81,12 @@ Theorem truhlar_chain_all : TruhlarChain.truhlar_chain_all_stmt.
 Proof. exact TruhlarChain.truhlar_chain_all. Qed.
 Print Assumptions truhlar_chain_all.
 
+(* H and He ('all'): every shell of momentum >= 0 loses exactly its most diffuse primitive, whatever the shell list *)
+From BSE Require Proofs.TruhlarAll.
+Theorem truhlar_all_removes_every_momentum : TruhlarAll.remove_all_stmt.
+Proof. exact TruhlarAll.remove_all. Qed.
+Print Assumptions truhlar_all_removes_every_momentum.
+
 Definition chain_demo_shells : list sshell :=
   [ mkShell "gto" "" [0%Z] ["10.0"; "0.5"] [["1.0"; "0.0"]; ["0.0"; "1.0"]];
     mkShell "gto" "" [1%Z] ["3.0"; "0.2"] [["1.0"; "0.0"]; ["0.0"; "1.0"]];
